@@ -94,6 +94,16 @@ fn piece_strategy() -> BoxedStrategy<Vec<WOp>> {
             WOp::Flush { slot: 1 },
             WOp::CfbFlush,
         ]),
+        // one stream grown past 64 KiB: in a version-3 file the first FAT sector (128 entries)
+        // fills up and a second one is appended in the middle of a write-back
+        1 => (slot.clone(), 0u8..3, proptest::sample::select(vec![30_000u32, 40_000, 61_000]), proptest::sample::select(vec![6_000u32, 30_000, 36_000]), any::<u8>()).prop_map(|(slot, name, a, b, seed)| vec![
+            WOp::CreateStream { slot, name },
+            WOp::WriteAll { slot, data: DataSpec { len: a, seed } },
+            WOp::WriteAll { slot, data: DataSpec { len: b, seed: seed.wrapping_add(1) } },
+            WOp::Flush { slot },
+            WOp::Close { slot },
+            WOp::CfbFlush,
+        ]),
         // overwrite + seek elsewhere (window move writes back) + flush
         1 => (slot.clone(), small(), any::<u16>()).prop_map(|(slot, sm, frac)| vec![
             WOp::SeekStart { slot, frac: 0 },
